@@ -88,3 +88,45 @@ Lemma scan2_length_firstn {C} (g : Z -> Z -> C -> Z * C) a b m c : (m <= length 
 Proof.
   intros Ha Hb. rewrite scan2_length by (rewrite !firstn_length; lia). rewrite firstn_length. lia.
 Qed.
+
+(* the loop-invariant rule composed with the code that follows the loop *)
+Lemma while_inv_bind {St R A : Type} (Inv : St -> Prop) (m : St -> nat)
+      (cond : St -> bool) (body : St -> res (flow St R)) (after : loop_exit St R -> res A) (v : A) :
+  (forall s, Inv s -> cond s = true ->
+     (0 < m s)%nat /\
+     match body s with
+     | Done (Continue s') => Inv s' /\ (m s' < m s)%nat
+     | Done (Break s') => after (Exited s') = Done v
+     | Done (Return r) => after (Returned r) = Done v
+     | Panicked | NoFuel => False
+     end) ->
+  (forall s, Inv s -> cond s = false -> after (Exited s) = Done v) ->
+  forall fuel s, Inv s -> (m s <= fuel)%nat ->
+  bind (while_loop fuel cond body s) after = Done v.
+Proof.
+  intros Hstep Hexit fuel s HI Hf.
+  destruct (while_loop_inv Inv m (fun e => after e = Done v) cond body Hstep Hexit fuel s HI Hf) as (e & He & HQ).
+  rewrite He. exact HQ.
+Qed.
+
+(* the measure of `while pow > 1 { ..; pow >>= 1 }`: the number of binary digits of pow after the leading one *)
+Definition pow_iters (pow : Z) : nat := match pow with Zpos p => pred (Pos.size_nat p) | _ => 0%nat end.
+
+Lemma pow_iters_log2 pow : pow_iters pow = Z.to_nat (Z.log2 pow).
+Proof.
+  destruct pow as [|p|p]; try reflexivity. unfold pow_iters. rewrite pos_size_nat_le_log2. reflexivity.
+Qed.
+
+Lemma pos_size_nat_pos p : (0 < Pos.size_nat p)%nat.
+Proof. destruct p; cbn [Pos.size_nat]; lia. Qed.
+
+Lemma pow_iters_xI p : pow_iters (Zpos p~1) = S (pow_iters (Zpos p)).
+Proof. unfold pow_iters. cbn [Pos.size_nat]. pose proof (pos_size_nat_pos p). lia. Qed.
+Lemma pow_iters_xO p : pow_iters (Zpos p~0) = S (pow_iters (Zpos p)).
+Proof. unfold pow_iters. cbn [Pos.size_nat]. pose proof (pos_size_nat_pos p). lia. Qed.
+
+(* the three tests / updates of the exponent the generated code makes, on a binary numeral *)
+Lemma pow_step_xI p : (Zpos p~1 >? 1) = true /\ (ix_and (Zpos p~1) 1 =? 1) = true /\ ix_shr (Zpos p~1) 1 = Zpos p.
+Proof. repeat split. Qed.
+Lemma pow_step_xO p : (Zpos p~0 >? 1) = true /\ (ix_and (Zpos p~0) 1 =? 1) = false /\ ix_shr (Zpos p~0) 1 = Zpos p.
+Proof. repeat split. Qed.
